@@ -41,6 +41,40 @@ CHECKS = {
         ],
         **tiers(20000, 200000),
     },
+    "C11": {
+        "pkg": "./checks/c11",
+        "level": "fault_enumeration",
+        "assumptions": [
+            "document chunks are drawn from an alphabet disjoint from every error text, so 'no document byte in an error response' is decidable from the body alone",
+            "an error handler that writes no status gets net/http's default 200; that is 'whatever the error handler writes', not the handler's configured status",
+        ],
+        **tiers(3000, 60000),
+    },
+    "C18": {
+        "pkg": "./checks/c18",
+        "race": True,
+        "level": "exploration",
+        "assumptions": [
+            "the Go scheduler is not controlled: the concurrent part samples schedules under the race detector, it does not enumerate interleavings",
+            "an absent params/result member and an explicit null are the same message",
+            "declared Content-Length values above 1 MiB are not generated (they only cost allocation time)",
+        ],
+        "quick": {"rapid_checks": 1500, "timeout": 900},
+        "thorough": {"rapid_checks": 20000, "timeout": 3000, "shards": 6,
+                     "fuzz": [{"target": "FuzzStreamRead", "time": "240s", "hard_timeout": 900}]},
+    },
+    "C19": {
+        "pkg": "./checks/c19",
+        "race": True,
+        "level": "exploration",
+        "assumptions": [
+            "clients are in-process ResponseWriters driven by the plan (a stalled client = a Write that blocks), so no TCP buffering hides a stall",
+            "the hazardous 'client unregistered before delivery' schedule is forced through the verif hook; all other interleavings are sampled, not enumerated",
+            "order between back-to-back broadcasts is not part of the statement (each broadcast is delivered by its own goroutine)",
+        ],
+        "quick": {"rapid_checks": 400, "timeout": 900},
+        "thorough": {"rapid_checks": 4000, "timeout": 3000, "shards": 8},
+    },
     "C17": {
         "pkg": "./checks/c17",
         "level": "exploration",
